@@ -11,6 +11,7 @@ from ..report import Inconclusive
 from ..py.guards import AEval, Kind, KINDS, always_raises
 from ..py.index import u, walk_shallow
 from ..py.templates import Lang, FORMAT_SHAPE, READ_FORM, included, intersect_witness
+from ..py import norm
 from . import common
 
 SER = "program.BlackbirdProgram.serialize"
@@ -39,8 +40,19 @@ class TemplateEval:
         self.ix, self.mod, self.fn, self.roles = ix, mod, fn, roles      # roles: name -> ('value', kind) | ('key',) | pieces
 
     def ev(self, e):
+        from ..py import norm
         if isinstance(e, ast.Constant) and isinstance(e.value, str):
             return [("lit", e.value)]
+        if isinstance(e, (ast.JoinedStr, ast.BinOp)) or (isinstance(e, ast.Call) and isinstance(e.func, ast.Attribute) and e.func.attr == "format"
+                                                          and not isinstance(e.func.value, ast.Name)):
+            parts = norm.fmt_parts(e)
+            if parts is not None and not any(len(p) > 2 for p in parts):
+                out = []
+                for p in parts:
+                    out += [("lit", p[1])] if p[0] == "lit" else self.ev(p[1])
+                return [x for x in out if x != ("lit", "")]
+        if isinstance(e, ast.Name) and e.id in self.roles and isinstance(self.roles[e.id], tuple) and self.roles[e.id][0] == "alias":
+            return self.ev(self.roles[e.id][1])
         if isinstance(e, ast.Name):
             r = self.roles.get(e.id)
             if r is None:
@@ -105,6 +117,10 @@ class TemplateEval:
             if isinstance(e.func, ast.Name):
                 q = self.ix.resolve_name(self.mod, e.func.id)
                 if q in self.ix.funcs:
+                    if q not in ("program.sympy_to_blackbird", "program.list_to_blackbird", "program.numpy_to_blackbird"):
+                        r = norm.inline_call(self.ix, self.mod, e)
+                        if r is not None:
+                            return self.ev(r[0])
                     return [("trusted", q, tuple(u(a) for a in e.args))]
         raise Inconclusive("template: expression `%s`" % " ".join(u(e).split())[:70])
 
@@ -157,7 +173,7 @@ def select_arm(arms, var, kind):
     return None, None
 
 
-def appended(ix, body, collections, inner_binding=None):
+def appended(ix, body, collections, inner_binding=None, fn=None):
     """the expression appended to one of `collections` on the path selected by inner_binding (for nested p-type tests)"""
     from .c15 import eval_pred
     stmts = list(body)
@@ -167,7 +183,7 @@ def appended(ix, body, collections, inner_binding=None):
         if isinstance(s, ast.If):
             if inner_binding is None:
                 raise Inconclusive("template: conditional inside an arm")
-            c = eval_pred(ix, "program", s.test, inner_binding)
+            c = eval_pred(ix, "program", s.test, inner_binding, fn=fn)
             stmts = list(s.body if c else s.orelse) + stmts
             continue
         for n in ast.walk(s):
@@ -221,7 +237,7 @@ def render_checks(rep, R, ix, L, slot, kinds, tdm_kinds=True):
             t = "tdm" if kind == "PName" else "other"
             binding = {slot.var: s, "self.programtype['name']": t, 'self.programtype["name"]': t}
         try:
-            apps = appended(ix, body, slot.collections, binding)
+            apps = appended(ix, body, slot.collections, binding, fn=f.node)
         except Exception as e:
             if kind == "NdArray":
                 continue          # the array arm is decided structurally by the hoisting rule
@@ -235,6 +251,7 @@ def render_checks(rep, R, ix, L, slot, kinds, tdm_kinds=True):
         if slot.key:
             roles[slot.key] = ("key",)
         roles["var_name"] = [("hole", "SH_ANAME")]
+        roles.update(local_aliases(body, roles))
         try:
             pieces = TemplateEval(ix, f.mod, f.node, roles).ev(expr)
         except Inconclusive as e:
@@ -362,7 +379,8 @@ def structure(rep, R, ix, M):
     # metadata lines
     want = {"name": G.literal_of("PROGNAME"), "version": G.literal_of("VERSION")}
     inits = [n for n in fn.body if isinstance(n, ast.Assign) and u(n.targets[0]) == "script" and isinstance(n.value, ast.List)]
-    ok = len(inits) == 1 and [" ".join(u(e).split()) for e in inits[0].value.elts] == ["'%s {}'.format(self.name)" % want["name"], "'%s {}'.format(self.version)" % want["version"]]
+    from ..py import norm
+    ok = len(inits) == 1 and [norm.canon_text(e) for e in inits[0].value.elts] == ["%s {self.name}" % want["name"], "%s {self.version}" % want["version"]]
     rep.check(ok, R, ix.site(f, inits[0]) if inits else ix.site(f), "the script starts with '%s <name>' and '%s <version>' (the grammar's keywords)" % (want["name"], want["version"]), key="meta|head")
     loops = [n for n in fn.body if isinstance(n, ast.For) and isinstance(n.iter, ast.List) and all(isinstance(e, ast.Tuple) for e in n.iter.elts)]
     okm = False
@@ -370,19 +388,22 @@ def structure(rep, R, ix, M):
         pairs = [(e.elts[0].value if isinstance(e.elts[0], ast.Constant) else None, u(e.elts[1])) for e in loops[0].iter.elts]
         okm = pairs == [(G.literal_of("TARGET"), "self.target"), (G.literal_of("PROGTYPE"), "self.programtype")]
         line = [n for n in ast.walk(loops[0]) if isinstance(n, ast.Call) and isinstance(n.func, ast.Attribute) and n.func.attr == "append" and u(n.func.value) == "script"]
-        okm = okm and len(line) == 1 and " ".join(u(line[0].args[0]).split()) in ("'{} {}{}'.format(name, data['name'], options)",)
+        okm = okm and len(line) == 1 and norm.canon_text(line[0].args[0]) == "{name} {data['name']}{options}"
         opt = [n for n in ast.walk(loops[0]) if isinstance(n, ast.Assign) and u(n.targets[0]) == "options" and isinstance(n.value, ast.Call)]
-        okm = okm and len(opt) == 1 and " ".join(u(opt[0].value).split()) == "' ({})'.format(', '.join(option_strings))"
+        okm = okm and len(opt) == 1 and norm.canon_text(opt[0].value) == " ({', '.join(option_strings)})"
     rep.check(okm, R, ix.site(f, loops[0]) if loops else ix.site(f), "target and type lines are '<keyword> <name>[ (<k>=<v>, ...)]' in that order, written only when a name is set", key="meta|target type")
     # statement lines
     lines = [n for n in walk_shallow(fn) if isinstance(n, ast.Call) and isinstance(n.func, ast.Attribute) and n.func.attr == "append" and u(n.func.value) == "script" and "|" in u(n)]
-    txt = sorted(" ".join(u(n.args[0]).split()) for n in lines)
-    rep.check(txt == ["'{} | {}'.format(op['op'], modes)", "'{}{} | {}'.format(op['op'], arguments, modes)"], R, ix.site(f), "statement lines are '<op>[(<arguments>)] | <modes>'", "got %s" % txt, key="stmt|line")
-    args = sorted(" ".join(u(n.value).split()) for n in walk_shallow(fn) if isinstance(n, ast.Assign) and u(n.targets[0]) == "arguments")
-    rep.check(args == ["'({})'.format(', '.join(args))", "'({})'.format(', '.join(kwargs))", "'({}, {})'.format(', '.join(args), ', '.join(kwargs))"], R, ix.site(f),
+    txt = sorted(str(norm.canon_text(n.args[0])) for n in lines)
+    rep.check(txt == ["{op['op']} | {modes}", "{op['op']}{arguments} | {modes}"], R, ix.site(f), "statement lines are '<op>[(<arguments>)] | <modes>'", "got %s" % txt, key="stmt|line")
+    args = sorted(str(norm.canon_text(n.value)) for n in walk_shallow(fn) if isinstance(n, ast.Assign) and u(n.targets[0]) == "arguments")
+    rep.check(args in (["({', '.join(args)), {', '.join(kwargs)})".replace("))", ")"), "({', '.join(args)})", "({', '.join(kwargs)})"],
+                       ["({', '.join(args + kwargs)})"], ["({', '.join(args)}, {', '.join(kwargs)})", "({', '.join(args)})", "({', '.join(kwargs)})"],
+                       sorted(["({', '.join(args)}, {', '.join(kwargs)})", "({', '.join(args)})", "({', '.join(kwargs)})"])), R, ix.site(f),
               "arguments are '(<positional>, <keyword>)' with positional arguments first", "got %s" % args, key="stmt|arguments")
-    modes = sorted(" ".join(u(n.value).split()) for n in walk_shallow(fn) if isinstance(n, ast.Assign) and u(n.targets[0]) == "modes")
-    okmodes = modes == ["'[{}]'.format(', '.join(('{}'.format(m) for m in op['modes'])))", "op['modes'][0]"]
+    modes = sorted(str(norm.canon_text(n.value)) if norm.canon_text(n.value) is not None else " ".join(u(n.value).split()) for n in walk_shallow(fn) if isinstance(n, ast.Assign) and u(n.targets[0]) == "modes")
+    okmodes = modes in (["[{', '.join(('{}'.format(m) for m in op['modes']))}]", "op['modes'][0]"], ["[{', '.join((str(m) for m in op['modes']))}]", "op['modes'][0]"],
+                        ["[{', '.join((f'{m}' for m in op['modes']))}]", "op['modes'][0]"])
     rep.check(okmodes, R, ix.site(f), "modes are written as a single integer or '[m1, m2, ...]' formatted element by element", "got %s" % modes, key="stmt|modes")
     # final join
     rets = [n for n in walk_shallow(fn) if isinstance(n, ast.Return)]
@@ -424,21 +445,36 @@ def arrays(rep, R, ix, M, L):
         word, form, kind = want[m.group(1)]
         seen.add(m.group(1))
         hdr = [s for s in body if isinstance(s, ast.Assign) and u(s.targets[0]) == "script"]
-        okh = len(hdr) == 1 and " ".join(u(hdr[0].value).split()) == "['%s array {}[{}, {}] ='.format(%s, *%s.shape)]" % (word, vn, A)
+        okh = len(hdr) == 1 and isinstance(hdr[0].value, ast.List) and len(hdr[0].value.elts) == 1 and norm.canon_text(hdr[0].value.elts[0]) in (
+            "%s array {%s}[{%s.shape[0]}, {%s.shape[1]}] =" % (word, vn, A, A),)
         rep.check(okh, R, ix.site(f, hdr[0]) if hdr else ix.site(f), "%s arrays are declared '%s array <name>[<rows>, <cols>] ='" % (m.group(1), word), "got `%s`" % (u(hdr[0].value) if hdr else None), key="array|header|" + word)
         rows = [s for s in body if isinstance(s, ast.For) and u(s.iter) == A]
-        if len(rows) != 1:
-            raise Inconclusive("numpy_to_blackbird: row loop not recognised")
-        rl = rows[0]
-        rs = [s for s in rl.body if isinstance(s, ast.Assign)]
+        rowexpr = None
+        if len(rows) == 1:
+            rl = rows[0]
+            rs = [s for s in rl.body if isinstance(s, ast.Assign)]
+            if len(rs) == 1:
+                rowexpr = rs[0].value
+            else:
+                ap = [x for x in ast.walk(rl) if isinstance(x, ast.Call) and isinstance(x.func, ast.Attribute) and x.func.attr == "append" and u(x.func.value) == "script"]
+                rowexpr = ap[0].args[0] if len(ap) == 1 else None
+            rowvar = u(rl.target)
+        else:
+            ext = [x for s_ in body for x in ast.walk(s_) if isinstance(x, ast.Call) and isinstance(x.func, ast.Attribute) and x.func.attr == "extend" and u(x.func.value) == "script"
+                   and x.args and isinstance(x.args[0], (ast.GeneratorExp, ast.ListComp)) and u(x.args[0].generators[0].iter) == A]
+            if len(ext) != 1:
+                raise Inconclusive("numpy_to_blackbird: row loop not recognised")
+            rl = ext[0]
+            rowexpr = ext[0].args[0].elt
+            rowvar = u(ext[0].args[0].generators[0].target)
         ok_row = False
         elt = None
-        if len(rs) == 1 and isinstance(rs[0].value, ast.BinOp) and isinstance(rs[0].value.left, ast.Constant) and isinstance(rs[0].value.right, ast.Call):
-            ind = rs[0].value.left.value
-            j = rs[0].value.right
+        if isinstance(rowexpr, ast.BinOp) and isinstance(rowexpr.left, ast.Constant) and isinstance(rowexpr.right, ast.Call):
+            ind = rowexpr.left.value
+            j = rowexpr.right
             if isinstance(j.func, ast.Attribute) and j.func.attr == "join" and isinstance(j.func.value, ast.Constant) and j.args and isinstance(j.args[0], (ast.ListComp, ast.GeneratorExp)):
                 lc = j.args[0]
-                ok_row = ind == "    " and j.func.value.value == ", " and u(lc.generators[0].iter) == u(rl.target) and not lc.generators[0].ifs
+                ok_row = ind == "    " and j.func.value.value == ", " and u(lc.generators[0].iter) == rowvar and not lc.generators[0].ifs
                 elt = (lc.elt, u(lc.generators[0].target))
         rep.check(ok_row, R, ix.site(f, rl), "each row is written as four spaces (one TAB token) + elements joined by ', ' in column order", key="array|row|" + word)
         if elt:
@@ -495,7 +531,8 @@ def c15_4(rep, ix, M):
     L = Lang(M.G)
     f = ix.func(SER)
     fn = f.node
-    sec = [n for n in fn.body if isinstance(n, ast.If) and " ".join(u(n.test).split()) in ("self.programtype['name'] == 'tdm'", "self._type['name'] == 'tdm'")]
+    from .c07 import resolve
+    sec = [n for n in fn.body if isinstance(n, ast.If) and " ".join(u(resolve(fn, n.test)).split()) in ("self.programtype['name'] == 'tdm'", "self._type['name'] == 'tdm'")]
     if len(sec) != 1:
         raise Inconclusive("serialize: tdm variable section not recognised")
     loops = [n for n in sec[0].body if isinstance(n, ast.For) and u(n.iter) in ("self._var.items()", "self.variables.items()")]
@@ -589,4 +626,14 @@ def local_callables(stmts, binding):
             elif isinstance(s, (ast.For, ast.While)):
                 scan(s.body)
     scan(stmts)
+    return out
+
+
+def local_aliases(stmts, roles):
+    """single-assignment locals inside an arm (e.g. sign = "+-"[int(v.imag < 0)]) usable inside the template"""
+    out = {}
+    for s_ in stmts:
+        for n in ast.walk(s_):
+            if isinstance(n, ast.Assign) and len(n.targets) == 1 and isinstance(n.targets[0], ast.Name) and n.targets[0].id not in roles:
+                out[n.targets[0].id] = ("alias", n.value)
     return out
